@@ -1,4 +1,5 @@
 import Rivaas.Spec.Log
+import Rivaas.Lemmas.LogBuf
 /-
 C20 — Logs are redacted and not lost. Property theorems.
 
@@ -277,6 +278,256 @@ theorem console_asis_leaks :
 theorem buffered_asis_drops_bound_attrs :
     (["token".toList], redactedVal) ∈ emitAsIs (wCase .json) ∧
     (["token".toList], redactedVal) ∉ emitAsIs { wCase .json with buffered := true } := by
+  decide
+
+
+/-! ## Part 2: buffering — not lost, exactly once, in order, over all schedules
+
+The machine of `Model/LogBuf.lean` with the four repairs on (`Flags.fixed`, what /repo contains now).
+Every theorem quantifies over every set of worker programs (any number of workers, any ops) whose log
+calls carry increasing sequence numbers per worker, and over every schedule (any list of steps). -/
+
+open Rivaas.LogBuf
+
+/-- the three invariants along a run -/
+structure BInv (custom : Bool) (progs : List (List Op)) (s : St) : Prop where
+  st : SInv progs s
+  ord : OInv progs s
+  del : DRel custom s (deliveryMonitor custom progs s.trace)
+
+theorem lemma_binv_advance {custom : Bool} {progs : List (List Op)} {s : St} (g : Nat) (h : BInv custom progs s) :
+    BInv custom progs (advance Flags.fixed s g) := by
+  refine ⟨sinv_advance g h.st, oinv_advance g h.st h.ord, ?_⟩
+  obtain ⟨evs, htr, hrel⟩ := drel_advance (progs := progs) g h.st h.ord h.del
+  rw [htr, deliveryMonitor_append]
+  exact hrel
+
+theorem lemma_binv_runToIdle {custom : Bool} {progs : List (List Op)} (fuel : Nat) {s : St} (g : Nat)
+    (h : BInv custom progs s) : BInv custom progs (runToIdle Flags.fixed fuel s g) := by
+  induction fuel generalizing s with
+  | zero => exact h
+  | succ n ih =>
+    simp only [runToIdle]
+    have h' := lemma_binv_advance g h
+    split
+    · split
+      · exact ih h'
+      · exact h'
+    · exact h'
+
+theorem lemma_binv_step {custom : Bool} {progs : List (List Op)} (fuel : Nat) {s : St} (st : Step)
+    (h : BInv custom progs s) : BInv custom progs (step Flags.fixed fuel s st) := by
+  cases st with
+  | seg g => exact lemma_binv_advance g h
+  | run g => exact lemma_binv_runToIdle fuel g h
+
+theorem lemma_binv_init (custom : Bool) (progs : List (List Op)) (hwf : WF progs) :
+    BInv custom progs (initSt custom progs) := by
+  have hget : ∀ (g : Nat) (w : Worker), (initSt custom progs).ws[g]? = some w →
+      ∃ p, progs[g]? = some p ∧ w = { ops := p, idx := 0, gate := none } := by
+    intro g w hw
+    simp only [initSt, List.getElem?_map, Option.map_eq_some_iff] at hw
+    obtain ⟨p, hp, rfl⟩ := hw
+    exact ⟨p, hp, rfl⟩
+  refine ⟨⟨by simp [initSt], ?_, ?_, ?_, fun _ => rfl, fun hc => by simp [initSt] at hc, fun _ => rfl, fun _ => rfl⟩,
+    ⟨rfl, ?_, ?_, ?_, ?_⟩, ⟨rfl, rfl, rfl, rfl, ?_, ?_, ?_⟩⟩
+  · intro g w hw
+    obtain ⟨p, hp, rfl⟩ := hget g w hw
+    simp [hp]
+  · intro g w hw hgate
+    obtain ⟨p, hp, rfl⟩ := hget g w hw
+    cases hgate
+  · intro g w hw hgate
+    obtain ⟨p, hp, rfl⟩ := hget g w hw
+    cases hgate
+  · intro g x hx; simp [initSt, orderMonitor] at hx
+  · intro g
+    simp only [lineSeqs, pendSeqs, initSt, List.append_nil, List.filter_nil, List.map_nil, List.nil_append, futureSeqs]
+    cases hp : (progs.map fun p => ({ ops := p, idx := 0, gate := none } : Worker))[g]? with
+    | none => simp
+    | some w =>
+      simp only [List.getElem?_map, Option.map_eq_some_iff] at hp
+      obtain ⟨p, hp, rfl⟩ := hp
+      exact hwf p (List.mem_of_getElem? hp)
+  · intro g w r hw hgate
+    obtain ⟨p, hp, rfl⟩ := hget g w hw
+    cases hgate
+  · intro r hr; simp [initSt] at hr
+  · intro g i b hmem; simp [initSt, deliveryMonitor] at hmem
+  · intro g x hmem; simp [initSt, deliveryMonitor] at hmem
+  · intro g i snap hmem; simp [initSt, deliveryMonitor] at hmem
+
+theorem lemma_binv_run (custom : Bool) (progs : List (List Op)) (sched : List Step) (hwf : WF progs) :
+    BInv custom progs (sched.foldl (step Flags.fixed (totalOps progs + 2)) (initSt custom progs)) := by
+  have : ∀ (s : St), BInv custom progs s → BInv custom progs (sched.foldl (step Flags.fixed (totalOps progs + 2)) s) := by
+    induction sched with
+    | nil => intro s h; exact h
+    | cons st rest ih => intro s h; exact ih _ (lemma_binv_step _ st h)
+  exact this _ (lemma_binv_init custom progs hwf)
+
+/-- **Main theorem, buffering half (model satisfies the whole oracle)**: for every set of worker
+    programs and every schedule, the trace of the repaired logger passes both monitors — every write is
+    of a logged record, intact, in per-worker order and never repeated; every call that had returned
+    before a `FlushBuffer` began and must be delivered is in the output when that `FlushBuffer` returns. -/
+theorem buffering_meets_spec (custom : Bool) (progs : List (List Op)) (sched : List Step) (hwf : WF progs) :
+    LogBuf.specOK custom progs (run Flags.fixed custom progs sched) = true := by
+  have h := lemma_binv_run custom progs sched hwf
+  simp only [LogBuf.specOK, run, Bool.and_eq_true]
+  exact ⟨h.ord.ok, h.del.ok⟩
+
+
+/-! ### what the order monitor's verdict means, and the clauses of the statement one by one -/
+
+/-- the records that reached the output, in order: (worker, seq, intact) -/
+def writesOf (tr : List Ev) : List (Nat × Nat × Bool) :=
+  tr.filterMap fun ev => match ev with | .write g s i => some (g, s, i) | _ => none
+
+theorem lemma_oMon_fold (progs : List (List Op)) (tr : List Ev) (m : OMon)
+    (h : (tr.foldl (oStep progs) m).ok = true) :
+    m.ok = true ∧
+    (∀ w ∈ writesOf tr, w.2.2 = true ∧ w.2.1 ∈ loggedSeqs progs w.1 ∧ ∀ p ∈ m.written, p.1 = w.1 → p.2 < w.2.1) ∧
+    (writesOf tr).Pairwise (fun a b => a.1 = b.1 → a.2.1 < b.2.1) := by
+  induction tr generalizing m with
+  | nil => exact ⟨h, by simp [writesOf], by simp [writesOf]⟩
+  | cons e rest ih =>
+    simp only [List.foldl_cons] at h
+    cases e with
+    | write g sq i =>
+      obtain ⟨hok', hw', hp'⟩ := ih _ h
+      simp only [oStep, Bool.and_eq_true, List.all_eq_true, Bool.or_eq_true, Bool.not_eq_true', beq_eq_false_iff_ne,
+        decide_eq_true_eq, List.contains_eq_mem] at hok'
+      obtain ⟨⟨⟨hmok, hint⟩, hlog⟩, hall⟩ := hok'
+      have hwr : writesOf (Ev.write g sq i :: rest) = (g, sq, i) :: writesOf rest := by simp [writesOf]
+      refine ⟨hmok, ?_, ?_⟩
+      · intro w hwm
+        rw [hwr] at hwm
+        rcases List.mem_cons.mp hwm with hwm | hwm
+        · subst hwm
+          refine ⟨hint, by simpa using hlog, ?_⟩
+          intro p hp hpg
+          rcases hall p hp with hne | hlt
+          · exact absurd hpg hne
+          · exact hlt
+        · obtain ⟨h1, h2, h3⟩ := hw' w hwm
+          exact ⟨h1, h2, fun p hp hpg => h3 p (List.mem_cons_of_mem _ hp) hpg⟩
+      · rw [hwr, List.pairwise_cons]
+        refine ⟨?_, hp'⟩
+        intro w hwm hg
+        exact (hw' w hwm).2.2 (g, sq) (List.mem_cons_self ..) hg
+    | begin g i =>
+      have : writesOf (Ev.begin g i :: rest) = writesOf rest := by simp [writesOf]
+      rw [this]; exact ih m h
+    | done g i =>
+      have : writesOf (Ev.done g i :: rest) = writesOf rest := by simp [writesOf]
+      rw [this]; exact ih m h
+
+/-- the order monitor accepts a trace only if its writes are genuine, intact and in per-worker order -/
+theorem order_monitor_sound (progs : List (List Op)) (tr : List Ev) (h : (orderMonitor progs tr).ok = true) :
+    (∀ w ∈ writesOf tr, w.2.2 = true ∧ w.2.1 ∈ loggedSeqs progs w.1) ∧
+    (writesOf tr).Pairwise (fun a b => a.1 = b.1 → a.2.1 < b.2.1) := by
+  obtain ⟨_, h2, h3⟩ := lemma_oMon_fold progs tr {} h
+  exact ⟨fun w hw => ⟨(h2 w hw).1, (h2 w hw).2.1⟩, h3⟩
+
+/-- **The records of one goroutine are emitted in the order they were logged** — every set of programs,
+    every schedule (flush interleaved with logging at every point the final handler can be stalled). -/
+theorem per_goroutine_order (custom : Bool) (progs : List (List Op)) (sched : List Step) (hwf : WF progs) :
+    (writesOf (run Flags.fixed custom progs sched)).Pairwise (fun a b => a.1 = b.1 → a.2.1 < b.2.1) := by
+  have h := buffering_meets_spec custom progs sched hwf
+  simp only [LogBuf.specOK, Bool.and_eq_true] at h
+  exact (order_monitor_sound progs _ h.1).2
+
+/-- **Exactly once**: no record reaches the output twice … -/
+theorem delivered_at_most_once (custom : Bool) (progs : List (List Op)) (sched : List Step) (hwf : WF progs) :
+    ((writesOf (run Flags.fixed custom progs sched)).map fun w => (w.1, w.2.1)).Nodup := by
+  have h := per_goroutine_order custom progs sched hwf
+  rw [List.Nodup, List.pairwise_map]
+  refine h.imp ?_
+  intro a b hab heq
+  simp only [Prod.mk.injEq] at heq
+  have := hab heq.1
+  omega
+
+/-- … what reaches it is a record that was logged, with the attributes it was logged with (K20d) -/
+theorem delivered_records_genuine (custom : Bool) (progs : List (List Op)) (sched : List Step) (hwf : WF progs) :
+    ∀ w ∈ writesOf (run Flags.fixed custom progs sched), w.2.2 = true ∧ w.2.1 ∈ loggedSeqs progs w.1 := by
+  have h := buffering_meets_spec custom progs sched hwf
+  simp only [LogBuf.specOK, Bool.and_eq_true] at h
+  exact (order_monitor_sound progs _ h.1).1
+
+/-- **Not lost**: in every reachable state in which buffering is off (no `StartBuffering` yet, or a
+    `FlushBuffer` has completed), every log call that has returned and had to be delivered is in the
+    output — whatever `SetLevel`, `Shutdown`, failed writes and other workers did in between. -/
+theorem nothing_lost_once_buffering_is_off (custom : Bool) (progs : List (List Op)) (sched : List Step)
+    (hwf : WF progs) :
+    let s := sched.foldl (step Flags.fixed (totalOps progs + 2)) (initSt custom progs)
+    s.buffering = false →
+    ∀ gs ∈ (deliveryMonitor custom progs s.trace).returned, gs ∈ (deliveryMonitor custom progs s.trace).written := by
+  intro s hb gs hgs
+  have h : BInv custom progs s := lemma_binv_run custom progs sched hwf
+  have hbuf : s.buffer = [] := h.st.f5 hb
+  have hbatch : s.batch = [] := by
+    apply h.st.f3
+    cases hf : s.flusher with
+    | none => rfl
+    | some x =>
+      have := (h.st.f4 (by rw [hf]; rfl)).2
+      rw [hb] at this; cases this
+  rcases h.del.ret gs.1 gs.2 hgs with hw | ⟨r, hr, _⟩
+  · exact hw
+  · rw [hbatch, hbuf] at hr; cases hr
+
+/-! ### non-vacuity and as-shipped witnesses -/
+
+def wLog (seq : Nat) (derived : Bool := false) (fail : Bool := false) : Op :=
+  .log { seq := seq, lvl := 3, derived := derived, fail := fail }
+
+/-- worker 0: StartBuffering, three logs; worker 1: FlushBuffer -/
+def wProgs : List (List Op) := [[.startBuffering, wLog 0, wLog 1, wLog 2], [.flush]]
+/-- worker 1's flush is stalled on its first replayed record while worker 0 logs its third record -/
+def wSched : List Step := [.seg 0, .seg 0, .seg 0, .seg 1, .seg 0, .seg 0, .seg 1, .seg 1, .seg 1, .seg 1, .seg 1]
+
+example : WF wProgs := by
+  intro p hp
+  simp only [wProgs, List.mem_cons, List.not_mem_nil, or_false] at hp
+  rcases hp with rfl | rfl <;> decide
+
+/-- the theorem is not vacuous: in that history all three records reach the output, in order -/
+example : writesOf (run Flags.fixed true wProgs wSched) = [(0, 0, true), (0, 1, true), (0, 2, true)] := by decide
+
+/-- K20c, as shipped: in the same history the third record overtakes the two older ones -/
+theorem flush_overtake_asis :
+    writesOf (run Flags.asIs true wProgs wSched) = [(0, 2, true), (0, 0, true), (0, 1, true)] ∧
+    LogBuf.specOK true wProgs (run Flags.asIs true wProgs wSched) = false := by decide
+
+/-- … and it is the loop in `flush` that repairs it (the other three repairs on, that one off) -/
+theorem flush_overtake_needs_loop :
+    LogBuf.specOK true wProgs (run ⟨true, true, false, true⟩ true wProgs wSched) = false := by decide
+
+def wRun (n : Nat) : List Step := List.replicate n (.run 0)
+
+/-- K20b, as shipped: StartBuffering; log; SetLevel; FlushBuffer — the record never reaches the output -/
+theorem setlevel_drops_buffer_asis :
+    writesOf (run Flags.asIs false [[.startBuffering, wLog 0, .setLevel 0, .flush]] (wRun 4)) = [] ∧
+    LogBuf.specOK false [[.startBuffering, wLog 0, .setLevel 0, .flush]]
+      (run Flags.asIs false [[.startBuffering, wLog 0, .setLevel 0, .flush]] (wRun 4)) = false ∧
+    LogBuf.specOK false [[.startBuffering, wLog 0, .setLevel 0, .flush]]
+      (run ⟨false, true, true, true⟩ false [[.startBuffering, wLog 0, .setLevel 0, .flush]] (wRun 4)) = false ∧
+    writesOf (run Flags.fixed false [[.startBuffering, wLog 0, .setLevel 0, .flush]] (wRun 4)) = [(0, 0, true)] := by
+  decide
+
+/-- K20d, as shipped: a record logged through `With(...)` while buffering is replayed without its attribute -/
+theorem derived_record_mutilated_asis :
+    writesOf (run Flags.asIs false [[.startBuffering, wLog 0 true, .flush]] (wRun 3)) = [(0, 0, false)] ∧
+    LogBuf.specOK false [[.startBuffering, wLog 0 true, .flush]]
+      (run ⟨true, false, true, true⟩ false [[.startBuffering, wLog 0 true, .flush]] (wRun 3)) = false := by
+  decide
+
+/-- K20e, as shipped: the write of the first buffered record fails and the second record is dropped with it -/
+theorem failed_write_drops_rest_asis :
+    writesOf (run Flags.asIs false [[.startBuffering, wLog 0 false true, wLog 1, .flush]] (wRun 4)) = [] ∧
+    LogBuf.specOK false [[.startBuffering, wLog 0 false true, wLog 1, .flush]]
+      (run ⟨true, true, true, false⟩ false [[.startBuffering, wLog 0 false true, wLog 1, .flush]] (wRun 4)) = false ∧
+    writesOf (run Flags.fixed false [[.startBuffering, wLog 0 false true, wLog 1, .flush]] (wRun 4)) = [(0, 1, true)] := by
   decide
 
 end Rivaas.C20
